@@ -46,6 +46,43 @@ def find_is_lower_bound(f):
     return ok, "" if ok else "find does not continue to the left after recording an equal key"
 
 
+def poll_set_prunes(prog, chk, rid):
+    """Poll::set: events buffered from the current epoll_wait round are masked with exactly the flags that were removed"""
+    ps = [f for f in prog.functions.values() if f.gname == "Socket::Poll::Private::set" and f.file.endswith("Socket.cpp")]
+    if not ps:
+        raise AnalysisBroken("Socket::Poll::Private::set (epoll) not found")
+    f = ps[0]
+    defs = q.local_defs(f)
+    masks = [s for s in q.stores(f) if s.op == "&=" and "selectedEvents" in f.r(s.lhs)]
+    ok = False
+    why = "the buffered events are not masked at all"
+    if masks:
+        t = q.no_casts(C.norm(f, masks[0].rhs, {}, defs))
+        # expected: ~(sockInfo.events & ~events) evaluated with the OLD registered events
+        m = re.match(r"^~\((.+) & ~(\w+)\)$", t)
+        ok = bool(m) and m.group(2) == f.params[1]["n"] and re.search(r"\.events$", m.group(1)) is not None
+        why = "the mask is `%s`, expected ~(registered & ~requested)" % t[:60]
+        if ok:
+            # the old value must be read before sockInfo.events is overwritten
+            rd = None
+            r0 = f.nodes[f.strip(masks[0].rhs)]
+            base = C.base_local(f, masks[0].rhs)
+            if base is not None:
+                for kind, nd, init in defs.get(base["id"], []):
+                    rd = nd
+            ov = [s for s in q.stores(f) if re.search(r"sockInfo\.events$", f.r(s.lhs)) and s.op == "="]
+            if rd is not None and any(q.reaches(f, o.node, rd) for o in ov if f.dominates_pos(f.node_pos(o.node), f.node_pos(masks[0].node))):
+                ok, why = False, "the registered flags are overwritten before the removed set is computed"
+        drop = [c for c in q.calls(f) if re.search(r"selectedSockets\.remove\(", f.r(c))]
+        if ok and not (drop and any(a[0] != "case" and a[1] and re.search(r"selectedEvents == 0", fin.key(f, a[0])) for a in fin.dominating_atoms(f, f.node_pos(drop[0])))):
+            ok, why = False, "an emptied buffered entry is not dropped"
+    if ok:
+        chk.ok(rid, f, "Poll::set masks buffered events with exactly the removed flags and drops emptied entries", f.where(masks[0].node), "mask shape + order", evals=3)
+    else:
+        chk.bad(rid, f, "buffered-events-not-pruned", "%s:%s" % (f.file, f.line),
+                "Poll::set: %s — an event kind that was just un-registered (e.g. read after suspend()) is still delivered from the buffered round" % why)
+
+
 def run(prog, chk):
     chk.extra["explanation"] = EXPLANATION
     chk.rule("C14.T1", "MPT/DOM: forward scans from MultiMap::find over equal keys require find to return the first equal entry", floor=2)
@@ -159,36 +196,7 @@ def run(prog, chk):
     else:
         chk.bad("C14.T3", f, "pending-event-survives-removal", "%s:%s" % (f.file, f.line),
                 "Poll::remove must also erase the socket from selectedSockets: an event buffered by the same epoll_wait round is otherwise delivered for a removed (freed) object")
-    f = ps[0]
-    defs = q.local_defs(f)
-    masks = [s for s in q.stores(f) if s.op == "&=" and "selectedEvents" in f.r(s.lhs)]
-    ok = False
-    why = "the buffered events are not masked at all"
-    if masks:
-        t = q.no_casts(C.norm(f, masks[0].rhs, {}, defs))
-        # expected: ~(sockInfo.events & ~events) evaluated with the OLD registered events
-        m = re.match(r"^~\((.+) & ~(\w+)\)$", t)
-        ok = bool(m) and m.group(2) == f.params[1]["n"] and re.search(r"\.events$", m.group(1)) is not None
-        why = "the mask is `%s`, expected ~(registered & ~requested)" % t[:60]
-        if ok:
-            # the old value must be read before sockInfo.events is overwritten
-            rd = None
-            r0 = f.nodes[f.strip(masks[0].rhs)]
-            base = C.base_local(f, masks[0].rhs)
-            if base is not None:
-                for kind, nd, init in defs.get(base["id"], []):
-                    rd = nd
-            ov = [s for s in q.stores(f) if re.search(r"sockInfo\.events$", f.r(s.lhs)) and s.op == "="]
-            if rd is not None and any(q.reaches(f, o.node, rd) for o in ov if f.dominates_pos(f.node_pos(o.node), f.node_pos(masks[0].node))):
-                ok, why = False, "the registered flags are overwritten before the removed set is computed"
-        drop = [c for c in q.calls(f) if re.search(r"selectedSockets\.remove\(", f.r(c))]
-        if ok and not (drop and any(a[0] != "case" and a[1] and re.search(r"selectedEvents == 0", fin.key(f, a[0])) for a in fin.dominating_atoms(f, f.node_pos(drop[0])))):
-            ok, why = False, "an emptied buffered entry is not dropped"
-    if ok:
-        chk.ok("C14.T3", f, "Poll::set masks buffered events with exactly the removed flags and drops emptied entries", f.where(masks[0].node), "mask shape + order", evals=3)
-    else:
-        chk.bad("C14.T3", f, "buffered-events-not-pruned", "%s:%s" % (f.file, f.line),
-                "Poll::set: %s — an event kind that was just un-registered (e.g. read after suspend()) is still delivered from the buffered round" % why)
+    poll_set_prunes(prog, chk, "C14.T3")
     pl = [f for f in prog.functions.values() if f.gname == "Socket::Poll::Private::poll" and f.file.endswith("Socket.cpp")]
     if pl:
         f = pl[0]
